@@ -56,7 +56,8 @@ def grid(tier, seed):
     pp = W.planner_policies()
     pols["ILP+la"] = pp["ILP+la"]
     pols["TSG+rtg"] = pp["TSG+rtg"]
-    seeds = (1, 2, 3) if tier == "thorough" else (1 + seed % 3,)
+    # 0 is the default of --random_seed and falsy: it gets its own grid column
+    seeds = (0, 1, 2, 3) if tier == "thorough" else (0, 1 + seed % 3)
     for rk, (rel, var) in rels.items():
         wl = W.workload_from_dag(names, fork, two_types, rel, var)
         for pk, pf in pols.items():
